@@ -102,7 +102,7 @@ func main() {
 		depth = 4
 		maxOff = 1100
 	}
-	run.Set("rule", "configs = 3 seeds x customizer lengths 0..12 (+trailing-zero variants); (a) all read-size sequences up to depth over {0,1,63,64,65,127,128,129,200} vs reference keystream; (b) every byte offset 0..maxOff as Store/Restore point reached by one read and by split reads, continuation compared with reference and original in lockstep incl. UintN/Permutation/Samples; (c) operation histories depth<=3 over Read/UintN/Permutation/Store+Restore against a stream-offset model; (d) all invalid seed/customizer/state lengths. A case is non-trivial/distinct by (config, sequence) or (config, offset, split).")
+	run.Set("rule", "configs = 3 seeds x customizer lengths 0..12 (+trailing-zero variants); (a) all read-size sequences up to depth over {0,1,63,64,65,127,128,129,200} vs reference keystream; (b) every byte offset 0..maxOff as Store/Restore point reached by one read and by split reads, continuation compared with reference and original in lockstep incl. UintN/Permutation/Samples; (c) operation histories depth<=3 over Read/UintN/Permutation/Store+Restore against a stream-offset model; (d) all invalid seed/customizer/state lengths; (e) all histories up to depth 5 (thorough 6) over {read 1/64/65/130, store-and-keep, uintn} with every state returned by Store() held as returned: unchanged after every later step, each restores at its own offset, and overwriting all caller-owned buffers (constructor inputs, returned states, the buffer handed to Restore) disturbs no generator. A case is non-trivial/distinct by (config, sequence) or (config, offset, split).")
 	run.Set("read_sizes", sizes)
 	run.Set("depth", depth)
 	run.Set("max_store_offset", maxOff)
@@ -331,6 +331,146 @@ func main() {
 		run.Distinct(fmt.Sprintf("c/%v", h))
 	})
 	run.Sample(map[string]any{"kind": "history", "ops": []string{"uintn(257)", "storerestore", "read(65)"}})
+
+	// (e) several stored states of ONE generator, held while it keeps running (a state is a value:
+	// it must describe the offset at which it was taken whatever the generator or the caller do
+	// afterwards). All histories up to depth he over {read 1/64/65/130, store-and-keep,
+	// uintn}; the slices returned by Store() are kept as returned (no copy). After every step every
+	// kept state must still be seed||customizer||LE64(offset when taken); at the end every kept
+	// state is restored and must continue the stream from ITS offset. Then the caller-owned buffers
+	// (constructor inputs, the returned states, the state handed to Restore) are overwritten and the
+	// original and all restored generators must continue undisturbed.
+	he := 5
+	if run.Thorough() {
+		he = 6
+	}
+	ealpha := []op{{"read", 1}, {"read", 64}, {"read", 65}, {"read", 130}, {"store", 0}, {"uintn", 257}}
+	var ehist [][]int
+	var eg func(cur []int, stores int)
+	eg = func(cur []int, stores int) {
+		if stores >= 1 && len(cur) >= 2 {
+			ehist = append(ehist, append([]int{}, cur...))
+		}
+		if len(cur) == he {
+			return
+		}
+		for i := range ealpha {
+			st := stores
+			if ealpha[i].kind == "store" {
+				st++
+			}
+			eg(append(cur, i), st)
+		}
+	}
+	eg(nil, 0)
+	run.Set("multi_store_history_depth", he)
+	run.Set("multi_store_histories", len(ehist))
+	ecfgs := []cfg{cfgs[0], cfgs[7], cfgs[len(cfgs)-1]}
+	ev.Par(len(ehist), func(hi int) {
+		h := ehist[hi]
+		for _, c := range ecfgs {
+			seedIn := append([]byte{}, c.seed...)
+			custIn := append([]byte{}, c.cust...)
+			p, err := random.NewChacha20PRG(seedIn, custIn)
+			if err != nil {
+				fail("ctor-rejects-valid", c, h, err.Error())
+				return
+			}
+			type kept struct {
+				st  []byte
+				off int
+			}
+			var ks []kept
+			off := 0
+			bad := false
+			for step, oi := range h {
+				o := ealpha[oi]
+				switch o.kind {
+				case "read":
+					b := make([]byte, o.n)
+					p.Read(b)
+					if !bytes.Equal(b, refchacha.Keystream(c.seed, c.nonce, off, int(o.n))) {
+						fail("multistore-read", c, h, fmt.Sprintf("step %d read(%d) at offset %d differs from the keystream", step, o.n, off))
+						bad = true
+					}
+					off += int(o.n)
+				case "uintn":
+					got := p.UintN(o.n)
+					if want := refUintN(c, &off, o.n); got != want {
+						fail("multistore-uintn", c, h, fmt.Sprintf("step %d UintN(%d)=%d, stream model says %d", step, o.n, got, want))
+						bad = true
+					}
+				case "store":
+					ks = append(ks, kept{p.Store(), off})
+				}
+				for ki, k := range ks {
+					if !bytes.Equal(k.st, storeBytes(c, k.off)) {
+						fail("stored-state-changed-later", c, h, fmt.Sprintf("the state returned by Store() #%d (taken after %d bytes) reads %x after step %d: a stored state must not change when the generator runs on or stores again", ki, k.off, k.st, step))
+						bad = true
+					}
+				}
+				if bad {
+					break
+				}
+			}
+			if bad {
+				continue
+			}
+			var rs []*struct {
+				q   interface{ Read([]byte) }
+				off int
+			}
+			for ki, k := range ks {
+				arg := append([]byte{}, k.st...)
+				q, err := random.RestoreChacha20PRG(arg)
+				if err != nil {
+					fail("restore-rejects-valid", c, h, err.Error())
+					continue
+				}
+				b := make([]byte, 70)
+				q.Read(b)
+				if !bytes.Equal(b, refchacha.Keystream(c.seed, c.nonce, k.off, 70)) {
+					fail("multistore-restore-continuation", c, h, fmt.Sprintf("state #%d taken after %d bytes does not resume at its offset", ki, k.off))
+				}
+				for i := range arg {
+					arg[i] = 0xAA // the caller reuses the buffer it handed to Restore
+				}
+				rs = append(rs, &struct {
+					q   interface{ Read([]byte) }
+					off int
+				}{q, k.off + 70})
+			}
+			// the caller overwrites every buffer it owns
+			for i := range seedIn {
+				seedIn[i] = 0x55
+			}
+			for i := range custIn {
+				custIn[i] = 0x55
+			}
+			for _, k := range ks {
+				for i := range k.st {
+					k.st[i] = 0xAA
+				}
+			}
+			b := make([]byte, 70)
+			p.Read(b)
+			if !bytes.Equal(b, refchacha.Keystream(c.seed, c.nonce, off, 70)) {
+				fail("caller-buffer-aliased:generator", c, h, "after the caller overwrote the constructor inputs and the returned states, the generator no longer continues its stream")
+			}
+			if st := p.Store(); !bytes.Equal(st, storeBytes(c, off+70)) {
+				fail("caller-buffer-aliased:store", c, h, fmt.Sprintf("after the caller overwrote the constructor inputs and the returned states, Store()=%x", st))
+			}
+			for _, r := range rs {
+				r.q.Read(b)
+				if !bytes.Equal(b, refchacha.Keystream(c.seed, c.nonce, r.off, 70)) {
+					fail("caller-buffer-aliased:restored", c, h, "after the caller overwrote the state buffer handed to Restore, the restored generator no longer continues its stream")
+				}
+			}
+			run.Add("evaluations", 1)
+		}
+		run.Distinct(fmt.Sprintf("e/%v", h))
+	})
+	run.Sample(map[string]any{"kind": "multi-store-history", "ops": []string{"read(65)", "store", "read(1)", "store", "uintn(257)"}, "then": "every kept state unchanged, restores at its own offset; caller buffers overwritten; generators continue"})
 
 	// (d) invalid lengths
 	good := cfgs[0]
